@@ -20,7 +20,7 @@ RULE = ("case 'bad' = (well-formed DBC or SYM text: canmatrix's own output for a
         "punctuation character, i.e. inside a switch, a quoted text, a bracket; half of the texts also as UTF-8 files with characters "
         "outside ASCII, read with the UTF-8 import option and cut inside multi-byte characters; thorough: in addition every position of "
         "the first 4000 bytes of a DBC and a SYM text): the load must not raise and every frame and signal defined wholly before the cut "
-        "keeps placement, byte order, signedness and scaling. Non-trivial = every distinct case.")
+        "Some malformed DBC lines that name an existing frame and signal stand in front of the frame's definition. keeps placement, byte order, signedness and scaling. Non-trivial = every distinct case.")
 EXHAUSTIVE = {"quick": False, "thorough": False}
 PARTIAL = ["only the control skeleton of the DBC reader (dispatcher, per-line error handling as a fold) is modelled and proved; that "
            "each real handler writes nothing before a failing pattern match, the multi-line comment state and the post-processing "
@@ -217,6 +217,15 @@ def gen(rng, tier, shard, nshards):
                     b = 'BA_ "%s" %s abc;' % (g.group(1), g.group(2))
                     if not any(b2 == b for _, b2, _ in bads):
                         bads.append([rng.choice(later), b, "wrongvalue"])
+            if fmt == "dbc" and m and ms and rng.random() < 0.3:
+                # a malformed line that names an existing frame and signal but stands before the frame's definition
+                first_bo = [n for n, l in enumerate(lines) if l.startswith("BO_ ")]
+                before = [q for q in pos if first_bo and q <= first_bo[0]]
+                if before:
+                    b = rng.choice(['VAL_ {fid} {sig} x "broken";', 'BA_ "GenSigStartValue" SG_ {fid} {sig} abc;', "SG_MUL_VAL_ {fid} {sig} {sig} x-y;"])
+                    b = b.replace("{fid}", m.group(1)).replace("{sig}", ms.group(1))
+                    if not any(b2 == b for _, b2, _ in bads):
+                        bads.append([rng.choice(before), b, "early"])
             if bads:
                 yield {"op": "bad", "c": {"fmt": fmt, "text": text, "ins": bads, "bad": [b for _, b, _ in bads]}}
         else:
@@ -288,7 +297,8 @@ def observe(case):
                     texts.add(eval(e).decode("iso-8859-1").strip())
                 except Exception:  # noqa
                     pass
-            r["printed"] = [c["ins"][i][1].strip() in texts for i in range(len(c["ins"]))]
+            # (whether a line that refers to a frame not yet defined is echoed depends on the handler: not compared)
+            r["printed"] = [c["ins"][i][2] != "early" and c["ins"][i][1].strip() in texts for i in range(len(c["ins"]))]
         else:
             r["errors"] = len(db.load_errors) - len(base_db.load_errors)
             r["expected_errors"] = sum(1 for _, _, kind in c["ins"] if kind != "unknown")
